@@ -15,15 +15,16 @@ EXTRA_TECH = {
     "C04": "; the sampler's buffered-iterator loop is proved for a batch in one chunk AND for a batch spanning two chunks (nditer by assumed contract: consecutive aligned views), one fresh random number per event over all chunks",
     "C05": "; bounded element-type design (int64 / float32 energies, float32 angles)",
     "C06": "; bounded entry-point design with three events whose sorting permutation is a rotation",
-    "C07": "; internal-generator path: postcondition `exists w in {d, 1 - d}` for the generator's draw d (uniform-preserving reflection)",
+    "C07": "; internal-generator path: postcondition `exists w in {d, 1 - d}` for the generator's draw d (uniform-preserving reflection); effect obligation on compute() (stage contracts): no column is narrowed (np.asarray(dtype=float32) is a recorded effect) between stage and results table",
     "C08": "; binary elementwise functions with out= are modelled (a clamp written in place is part of the term); bounded generate-then-call history (altDec, then __call__ with other altitudes)",
     "C09": "; argmax over symbolic explicit arrays decided by path forking (the shower-maximum index under every cloud placement)",
     "C10": "; harness kernel object carries the attributes of a real CphotAng; bounded: every energy decade in one batch, identical showers at different places under a location-dependent cloud model, NaN cloud top",
     "C11": "; includes C04's two-chunk sampler obligations and C10's per-event-worker design",
     "C14": "; bounded: the same configuration and seed repeated in one process gives the same table bit for bit",
     "C15": "; f-string text `<number> <unit>` given a meaning by the contract (serializer / validator pairing); a valid configuration that cannot be written and read back is a failed round trip",
-    "C17": "; ghost file system keyed by the caller's path, path objects included; a run onto the file of an earlier run must complete (bounded)",
-    "C18": "; slice obligations for grids whose axes share one array object; array tokens survive content-preserving conversions; library stubs with the real signatures",
+    "C16": "; contract of the command line callback apps/run.py:run (symbolic execution with stub collaborators): the final write happens for tables with and without rows; native witness through click's test runner",
+    "C17": "; contract of the command line callback apps/run.py:run: compute() receives the output name and the --write-stages flag whenever a file is wanted; ghost file system keyed by the caller's path, path objects included; a run onto the file of an earlier run must complete (bounded)",
+    "C18": "; one HDF5 file holding several grids: writer / writer / reader on h5py stubs with the library's open modes; slice obligations for grids whose axes share one array object; array tokens survive content-preserving conversions; library stubs with the real signatures",
     "C19": "; bounded memory-layout design (Fortran-ordered, transposed, strided, 3-d)",
     "C20": "; call-site obligation on compute(): calculate_snr receives the run's detector altitude, antenna count and gain (native witness: pass-through wrapper on the real call); energy linearity replayed natively at the solver's energy and on a ladder 1e-6..1e8",
 }
